@@ -7,9 +7,11 @@
 // the dump of ALL tables equals the pre-state, result.Error carries the injected sentinel,
 // no transaction is open at the driver and no connection is checked out.
 //
-// Dimensions of a case besides the operation: the entry handle (scopes returning sessions, CreateBatchSize), the
-// handle mode (plain / prepared statements by Config / by Session) with the history of the handle's statement
-// cache, and - second family, hk.go - the session a hook derives from its tx to write through.
+// Dimensions of a case besides the operation: the entry (scopes returning sessions, CreateBatchSize, or the
+// operation is issued from the AfterFind hook of a read, sv.go), the handle mode (plain / prepared statements by
+// Config / by Session / both stacked) with the history of the handle's statement cache, and - second family,
+// hk.go - the session a hook derives from its tx to write through. Operations that run more than one pipeline
+// (Save with a preset key that has no row) are enumerated over the calls of all their pipelines.
 package c05
 
 import (
@@ -644,22 +646,26 @@ var Engine = &core.Engine{
 	ID:    "C05",
 	Level: "fault_enumeration",
 	Rule: "operations = 19 kinds of the first family (Create of struct / slice / pointer slice, CreateInBatches, Save new / existing, FullSaveAssociations, Update, Updates struct / with associations / by condition, UpdateColumn, Delete, Select(assoc).Delete, Select(clause.Associations).Delete, Delete by condition, Delete / Select(assoc).Delete / Updates with RETURNING) over seeded record graphs (belongs-to new/existing, has-one, has-many with nested has-many, many-to-many new/existing, polymorphic) with hooks on parent and child that write an audit row through tx, " +
-		"plus 8 kinds of a second family (Create struct / slice / in batches, Save, Update, Updates with has-many, Delete, Select(assoc).Delete on Acct-has-many-Entry) whose hooks write through a handle they DERIVE from tx (tx; Session{NewDB}; Session{NewDB,PrepareStmt}; Session{NewDB,Context}; Session{NewDB,SkipDefaultTransaction}; Session{NewDB,SkipHooks,PrepareStmt,Context}; Session{PrepareStmt}; WithContext; Session{}) by Exec / Create(&row) / Model().Create(map), in every hook, only in the parent's Before* hooks, only in the first hook, or in a random subset of the invocations; " +
-		"every kind is run from every entry handle (db.Session; three scopes that return a session; Session{CreateBatchSize:2}) x every handle mode (plain; Config{PrepareStmt:true}; db.Session(&Session{PrepareStmt:true})), and in the prepared-statement modes after a random history of the handle (nothing; the same operation under Session{SkipDefaultTransaction:true}, i.e. its SQL texts were prepared on the pool; the same operation in its default transaction; another operation and preloading reads under SkipDefaultTransaction) - every run of such a case starts from a new handle with that history; " +
-		"for each operation EVERY faultable driver call index (BEGIN, each prepare/exec/query/stmt-exec/stmt-query, the first step of each result set, COMMIT) and EVERY hook invocation index is failed once (the failing step wraps a random error value: none, context.Canceled, context.DeadlineExceeded, sql.ErrTxDone, ErrRecordNotFound, ErrInvalidTransaction, sql.ErrNoRows; failing hooks return it bare in half of the runs), and (every 4th operation in quick, all in thorough; plain handle mode) the process is made to die at EVERY driver call index (crash points); distinct = (operation kind + mode, K, k, call kind, SQL verb) resp. (kind + mode, J, j, hook, type); every faulted run is non-trivial (the fault-free run proved the call/hook is reached and the operation changes the database)",
+		"plus 9 kinds of a second family (Create struct / slice / in batches, Save, Save with a preset key that has no row, Update, Updates with has-many, Delete, Select(assoc).Delete on Acct-has-many-Entry) whose hooks write through a handle they DERIVE from tx (tx; Session{NewDB}; Session{NewDB,PrepareStmt}; Session{NewDB,Context}; Session{NewDB,SkipDefaultTransaction}; Session{NewDB,SkipHooks,PrepareStmt,Context}; Session{PrepareStmt}; WithContext; Session{}) by Exec / Create(&row) / Model().Create(map), in every hook, only in the parent's Before* hooks, only in the first hook, or in a random subset of the invocations, " +
+		"plus 5 further kinds: Save of a record whose primary key is set but has no row (gorm runs an UPDATE pipeline and then an INSERT .. ON CONFLICT pipeline) with a random association graph or none, the same on a model without hooks and associations, Save of a slice mixing a stored and new records, Delete of a slice (values / pointers) with and without Select-ed associations, Create under FullSaveAssociations with stored associated records; " +
+		"every kind is run from every entry (db.Session; three scopes that return a session; Session{CreateBatchSize:2}; and ISSUED FROM AN AfterFind HOOK: a read - First, Find, Preload.First where the preloaded child's hook issues it, Preload.Find - whose hook runs the operation on the tx it receives or on tx.Session(&Session{NewDB:true[, PrepareStmt / Context / SkipHooks]})) x every handle mode (plain; Config{PrepareStmt:true}; db.Session(&Session{PrepareStmt:true}); BOTH, i.e. two stacked prepared-statement wrappers; Session{PrepareStmt:true} derived twice), and in the prepared-statement modes after a random history of the handle (nothing; the same operation under Session{SkipDefaultTransaction:true}, i.e. its SQL texts were prepared on the pool; the same operation in its default transaction; another operation and preloading reads under SkipDefaultTransaction) - every run of such a case starts from a new handle with that history; " +
+		"for each operation EVERY faultable driver call index (BEGIN, each prepare/exec/query/stmt-exec/stmt-query, the first step of each result set, COMMIT - of every pipeline the operation runs) and EVERY hook invocation index is failed once (the failing step wraps a random error value: none, context.Canceled, context.DeadlineExceeded, sql.ErrTxDone, ErrRecordNotFound, ErrInvalidTransaction, sql.ErrNoRows; failing hooks return it bare in half of the runs), and (every 4th operation in quick, all in thorough; plain handle mode) the process is made to die at EVERY driver call index (crash points); faults are armed only while the operation itself runs (not during the read whose hook issues it); distinct = (operation kind + mode, K, k, call kind, SQL verb) resp. (kind + mode, J, j, hook, type); every faulted run is non-trivial (the fault-free run proved the call/hook is reached and the operation changes the database). " +
+		"One class has its own signature (" + sigTwoPipelines + "): Save with a preset absent key, failing driver call or crash point after the first COMMIT of the fault-free sequence, error reported, nothing left open, database exactly in the state it had when the second transaction was about to begin (dumped at that moment in the reference run)",
 	Assumptions: []string{
-		"default transaction settings only (implicit transaction on: SkipDefaultTransaction is used only for what a handle ran BEFORE the operation under test); PrepareStmt (Config or Session) and Session{CreateBatchSize} are exercised as modes of the handle: they do not change what one write operation is, so the statement's all-or-nothing / Error / finished-transaction demands apply unchanged",
+		"default transaction settings only (implicit transaction on: SkipDefaultTransaction is used only for what a handle ran BEFORE the operation under test); PrepareStmt (Config, Session, or both / twice) and Session{CreateBatchSize} are exercised as modes of the handle: they do not change what one write operation is, so the statement's all-or-nothing / Error / finished-transaction demands apply unchanged",
+		"a write operation issued through the handle an AfterFind hook receives is an ordinary operation with the settings of the handle the read started from (a query has no transaction, so it opens its own); it is run on tx itself or on a session derived WITH NewDB that keeps the default transaction (not Session{SkipDefaultTransaction:true}); operations whose first call is Session(..) without NewDB (the two FullSaveAssociations kinds) are not issued from a hook, see next item; the read's own statements are not fault points and its result is not judged",
 		"a hook writes through tx or through a session derived from tx; sessions derived WITHOUT NewDB (Session{PrepareStmt:true}, WithContext, Session{}) inherit the running operation's statement (model, table, clauses), so only a raw Exec is issued on them: which table a Create/Model call on such a handle addresses is not fixed by the statement (tx.WithContext(ctx).Create(&Journal{}) inside a hook of Acct targets accts or panics in reflect; observed, not checked here)",
 		"nested Transaction blocks / SavePoints inside hooks are not generated here (C13); hooks do not read through the derived handle",
 		"faults are injected at BEGIN, statements, the first step of a result set and COMMIT (a failed COMMIT rolls the real transaction back, as a server would); not on ROLLBACK",
 		"in the prepared-statement modes every run (reference and faulted) uses a new database handle brought to the same history, because the statement cache is state of the handle; crash points are enumerated on the plain handle mode only",
 		"crash points are simulated in-process: at driver call k every connection is dropped without any clean-up statement (SQLite discards the open transaction), every later call fails, and the database file is reopened by a fresh handle; durability of SQLite itself under power loss is not the subject",
+		"preset keys without a row are taken from 50..99 (stored keys are 1..3, generated keys continue from there); Save on a slice is given one stored record without key collisions among the new ones",
 	},
 	Cases: func(tier string) int {
 		if tier == "thorough" {
-			return len(allKinds) * 300
+			return len(allKinds) * 315 // 5 full cycles of (entry x handle mode) per kind
 		}
-		return len(allKinds) * 30
+		return len(allKinds) * 42 // 6 cycles of the 7 entries, 4 2/3 cycles of the 9 handle-mode slots per kind
 	},
 	Batch:         func(string) int { return 8 },
 	Run:           run,
